@@ -15,7 +15,7 @@ coupling / autoregressive / CDF passes.  Not covered by a theorem (correspondenc
 flows (`log_prob` of a batch vs rows), the linear family, 1×1 convolution, normalisation layers in evaluation mode, conditioner
 networks themselves (their row-wise behaviour is the hypothesis `hp`, compared numerically).  Row independence of the executed
 passes is stated for the `out` / `ld` arrays; a batch in which ONE row is out of domain is rejected as a whole by the code
-(`err`), and the theorems say nothing about `err`.  `rowwise_*` are facts about `List.map`.
+(`err`), and `Properties/C12E.lean` relates the two: the batch run has `err = none` iff every row run alone has.  `rowwise_*` are facts about `List.map`.
 -/
 open NF
 
